@@ -189,6 +189,9 @@ Step(kind, w, o, w2, r) ==
   \cup If(\E p \in DOMAIN w2 : w2[p].ex /\ (~Aligned(kind, w2[p]) \/ (kind \in ChanKinds /\ ~w2[p].szok)), "C15:misaligned")
   \cup If(kind \in ChanKinds /\ \E p \in DOMAIN w2 : w2[p].ex /\ ~Unique(w2[p]), "C15:duplicate_channel")
   \cup If(\E p \in DOMAIN w2 : w2[p].ex /\ ~w2[p].szok, "C02:declared_size_after_edits")
+  \* C20: what a lookup in one block returns is an item of that block, not an equal-looking item of another
+  \cup If(o.op = "lookup" /\ o.what \in {"label", "index"} /\ r.ok /\ Len(r.val) = 1 /\ r.val[1] \notin Ids(a)
+            /\ \E p \in DOMAIN w \ {i} : r.val[1] \in Ids(w[p]), "C20:lookup_returned_item_of_other_block")
   \cup If(o.op \in {"lookup", "encode"} /\ w2 # w, IF o.op = "lookup" THEN "C18:lookup_changed_block" ELSE "C20:encode_changed_block")
   \cup (IF o.op = "decode" THEN StateClauses(kind, NoInst, w2[o.j]) ELSE StateClauses(kind, a, b))
   \cup (CASE o.op = "construct" ->
